@@ -40,6 +40,26 @@ class Recorder:
         return None
 
 
+def _live_generator(log):
+    """a generator *object* stored in a module: naming it must return it untouched"""
+    log.append('ADVANCED a generator object named by the document (m1.y)')
+    yield 'item'
+    log.append('DRAINED m1.y')
+
+
+class _LiveIterator:
+    """an iterator object that is not a generator"""
+    def __init__(self, log):
+        self.log = log
+
+    def __iter__(self):
+        return self
+
+    def __next__(self):
+        self.log.append('ADVANCED an iterator object named by the document (m1.i)')
+        raise StopIteration
+
+
 class FakeModule:
     def __init__(self, name, log, **attrs):
         object.__setattr__(self, '__name__', name)
@@ -57,7 +77,7 @@ class FakeSys:
     def __init__(self, log):
         self.log = log
         self.modules = {
-            'm1': FakeModule('m1', log, f=Recorder(log, 'm1.f'), g=3),
+            'm1': FakeModule('m1', log, f=Recorder(log, 'm1.f'), g=3, y=_live_generator(log), i=_LiveIterator(log)),
             'builtins': FakeModule('builtins', log, eval=Recorder(log, 'eval'), len=Recorder(log, 'len')),
             'a.b': FakeModule('a.b', log, h=Recorder(log, 'a.b.h')),
         }
@@ -153,7 +173,7 @@ def dispatch(tag: str, kind: int, lc: int) -> str:
             loader.dispose()
         v = box.violations()
         if v:
-            return v
+            return fail(P, v, tag=tag)
         if outcome == 'rejected':
             reach()
             return 'ok'
@@ -192,7 +212,7 @@ def name(x: str, lc: int) -> str:
             loader.dispose()
         v = box.violations()
         if v:
-            return v
+            return fail(P, v, tag=NAME_PREFIX + x)
         if outcome == 'rejected':
             return 'ok'
         reach()
@@ -225,7 +245,7 @@ def forbidden(which: int, x: str, kind: int, lc: int) -> str:
         except yaml.constructor.ConstructorError:
             v = box.violations()
             if v:
-                return v
+                return fail(P, v, tag=tag)
             reach()
             return 'ok'
         except Exception as e:
@@ -254,7 +274,7 @@ def context(tag: str, kind: int, ctx: int) -> str:
             sig = exc_sig(e)
         v = box.violations()
         if v:
-            return v
+            return fail(P, v, tag=tag)
         if outcome == 'rejected':
             reach()
             return 'ok'
@@ -322,7 +342,7 @@ def api(tag: str, kind: int, which: int) -> str:
             return 'STUB-NOT-HIT (entry point is not bound to FullLoader)'
         v = box.violations()
         if v:
-            return v
+            return fail(P, v, tag=tag)
         if outcome == 'rejected':
             reach()
             return 'ok'
